@@ -10,7 +10,8 @@ import Mathlib.LinearAlgebra.Matrix.NonsingularInverse
 
 open Finset BigOperators
 
-namespace GT
+namespace GT.Rescale
+open GT
 
 variable {K : Type*} [Field K] {n : ℕ}
 
@@ -109,4 +110,4 @@ noncomputable def reflectionAcross (D : Matrix (Fin (n + 1)) (Fin (n + 1)) K) :
 def applyT (M : Matrix (Fin (n + 1)) (Fin (n + 1)) K) (x : Fin (n + 1) → K) : Fin (n + 1) → K :=
   Matrix.vecMul x M
 
-end GT
+end GT.Rescale
